@@ -51,5 +51,18 @@ Theorem C09_server_drop_aborts : forall (T : Type) (s : @sstate T) e,
   s_dropped s = false -> In e (s_inflight s) -> In (e_h e) (s_aborted (drop_channel s)).
 Proof. exact ServerProps.C09_server_drop_aborts. Qed.
 
+From TarpcV Require Import ServerFuel ServerSpec ServerProofsPA4 ServerProofsPB6 ServerProofsPC10 ServerProofsPC3.
+
+(* server MONITOR theorem: a failing transport call is the last call of its poll and the poll
+   yields Err naming that call's activity; no transport call after it; after the channel was
+   dropped no handler is polled; no panic, no unbounded poll (hypotheses B1, stops_after_error
+   inside the monitor) *)
+Theorem C09_server_monitor : forall (T C : Type) (tp : transport T response cmsg) (ctl : T -> C -> T)
+    (tfuel : T -> nat) (c : cfg) (t0 : T) (ops : list (op C)),
+  tfuel_ok tp tfuel ->
+  c09s_ok c ops (fst (run tp ctl tfuel c t0 ops)) = true.
+Proof. exact s09_holds. Qed.
+
 Print Assumptions C09_client_monitor.
 Print Assumptions C09_server_drop_aborts.
+Print Assumptions C09_server_monitor.
